@@ -43,6 +43,10 @@ type c11In struct {
 	// scratch directory holding Files (name -> contents) and being the directory of the Casketfile
 	Steps []c11Step         `json:"steps,omitempty"`
 	Files map[string]string `json:"files,omitempty"`
+	// multi cases: a WHOLE Casketfile (snippets, several server blocks, the same directive line in effect more than
+	// once) and, when it has several server blocks, each of them as a file of its own (with the snippets)
+	Text  string   `json:"text,omitempty"`
+	Parts []string `json:"parts,omitempty"`
 }
 
 type c11Step struct {
@@ -52,6 +56,7 @@ type c11Step struct {
 }
 
 var c11DigitsRe = regexp.MustCompile(`[0-9]+`)
+var c11UUIDRe = regexp.MustCompile(`[0-9a-f]{8}-[0-9a-f]{4}-[0-9a-f]{4}-[0-9a-f]{4}-[0-9a-f]{12}`)
 
 func c11FileID(f string) uint64 {
 	if f == "" {
@@ -359,7 +364,177 @@ func c11Run(in0 interface{}) Result {
 	if in.Kind == "seq" {
 		return c11RunSeq(in)
 	}
+	if in.Kind == "multi" {
+		return c11RunMulti(in)
+	}
 	return c11RunConf(in)
+}
+
+// ---- whole files: several server blocks, snippets imported more than once, the SAME directive line in effect twice
+// within one load (twice in a block, in two blocks, through a snippet imported by two sites or twice by one).
+// Spec: neither mode panics or hangs and the modes agree.  Model (CConfSites): the blocks are set up in order, a
+// block does what it does as a file of its own, the first rejected one ends the load - in both modes.
+// The cases run in the harness process (fast); what earlier loads left behind in the process can make a load
+// panic that would not in a fresh process, so a panic is re-examined in a child process and only then reported.
+var (
+	c11PartMemo   = map[string]uint64{}
+	c11PartMemoMu sync.Mutex
+)
+
+func c11RunMulti(in *c11In) Result {
+	casket.Quiet = true
+	v := c11Exec(in.Text, true)
+	x := c11Exec(in.Text, false)
+	if c11Class(v) >= 2 || c11Class(x) >= 2 {
+		v = c11Child(in.Text, true).Result
+		x = c11Child(in.Text, false).Result
+	}
+	cv, cx := c11Class(v), c11Class(x)
+	var persite []string
+	if cv < 2 && cx < 2 {
+		for _, p := range in.Parts {
+			c11PartMemoMu.Lock()
+			c, ok := c11PartMemo[p]
+			c11PartMemoMu.Unlock()
+			if !ok {
+				r := c11Exec(p, true)
+				if c11Class(r) >= 2 {
+					r = c11Child(p, true).Result
+				}
+				c = c11Class(r)
+				c11PartMemoMu.Lock()
+				c11PartMemo[p] = c
+				c11PartMemoMu.Unlock()
+			}
+			persite = append(persite, cN(c))
+		}
+	}
+	sig := fmt.Sprintf("multi:%s:%s:validate=%d:execute=%d", in.Dir, in.Ops2, cv, cx)
+	if cv >= 2 || cx >= 2 {
+		msg := v
+		if cv < 2 {
+			msg = x
+		}
+		sig = fmt.Sprintf("multi:%s:%s:%s", in.Dir, in.Ops2, c11DigitsRe.ReplaceAllString(trunc(c11UUIDRe.ReplaceAllString(msg, "ID"), 60), "N"))
+	}
+	obs := map[string]interface{}{"validate": trunc(v, 200), "execute": trunc(x, 200), "persite": persite}
+	if len(persite) > 0 {
+		return Result{Term: cApp("CConfSites", cList(persite), cN(cv), cN(cx)), Obs: obs, Sig: sig, Nontrivial: true, Key: in.Text,
+			Class: fmt.Sprintf("multi:%s:%d%d", in.Ops2, cv, cx)}
+	}
+	return Result{Term: cApp("CConf", cN(cv), cN(cx)), Obs: obs, Sig: sig, Nontrivial: true, Key: in.Text, Class: fmt.Sprintf("multi:%s:%d%d", in.Ops2, cv, cx)}
+}
+
+type c11Blk struct {
+	Keys  string
+	Lines []string
+}
+
+// c11File writes a Casketfile of snippets and server blocks, and every server block as a file of its own
+func c11File(snips [][2]string, blks []c11Blk) (string, []string) {
+	head := ""
+	for _, sn := range snips {
+		head += "(" + sn[0] + ") {\n" + sn[1] + "\n}\n"
+	}
+	text := head
+	var parts []string
+	for _, b := range blks {
+		t := b.Keys + " {\n" + strings.Join(b.Lines, "\n") + "\n}\n"
+		text += t
+		parts = append(parts, head+t)
+	}
+	if len(blks) < 2 {
+		parts = nil
+	}
+	return text, parts
+}
+
+// c11GenMulti: for every directive a few lines (the spelling meant to be accepted, the bare name, lines drawn over its
+// vocabulary), each in effect TWICE within one load in every way a Casketfile can do that, plus files of two and three
+// sites mixing directives, own lines and shared snippets
+func c11GenMulti(r *Rand, tier string, dirs []string, fixDir string, vocabOf func(string) []string, lex []string, q func(string) string) []*c11In {
+	var out []*c11In
+	keys := []string{"127.0.0.1:0", "localhost:0", "a.b.example.test:0"}
+	accepted := func(d string) string {
+		s := c11SeqAccepted[d]
+		if s == "" {
+			return d
+		}
+		s = strings.ReplaceAll(s, "{FIX}", fixDir)
+		s = strings.ReplaceAll(s, "htpasswd=htpasswd", "htpasswd="+filepath.Join(fixDir, "htpasswd"))
+		s = strings.ReplaceAll(s, " page.html", " "+filepath.Join(fixDir, "page.html"))
+		return s
+	}
+	add := func(d, shape string, snips [][2]string, blks []c11Blk) {
+		text, parts := c11File(snips, blks)
+		out = append(out, &c11In{Kind: "multi", Dir: d, Ops2: shape, Text: text, Parts: parts})
+	}
+	nRand := 2
+	if tier == "thorough" {
+		nRand = 12
+	}
+	for _, d := range dirs {
+		vocab := vocabOf(d)
+		lines := []string{accepted(d), d}
+		for i := 0; i < nRand; i++ {
+			l := d
+			for k := r.Intn(3); k > 0; k-- {
+				l += " " + q(r.Pick(lex))
+			}
+			if len(vocab) > 0 && r.Chance(60) {
+				l += " {\n  " + q(r.Pick(vocab)) + " " + q(r.Pick(lex)) + "\n}"
+			}
+			lines = append(lines, l)
+		}
+		for _, l := range lines {
+			sn := [][2]string{{"shared", l}}
+			add(d, "twice-in-one-block", nil, []c11Blk{{keys[0], []string{l, l}}})
+			add(d, "in-two-blocks", nil, []c11Blk{{keys[0], []string{l}}, {keys[1], []string{l}}})
+			add(d, "in-three-blocks", nil, []c11Blk{{keys[0], []string{l}}, {keys[1], []string{l}}, {keys[2], []string{l}}})
+			add(d, "snippet-imported-by-two-sites", sn, []c11Blk{{keys[0], []string{"import shared"}}, {keys[1], []string{"import shared"}}})
+			add(d, "snippet-imported-twice-by-one-site", sn, []c11Blk{{keys[0], []string{"import shared", "import shared"}}})
+			add(d, "own-line-and-snippet", sn, []c11Blk{{keys[0], []string{l, "import shared"}}})
+			add(d, "one-block-two-keys", nil, []c11Blk{{keys[0] + ", " + keys[1], []string{l}}})
+			add(d, "snippet-site-and-own-line-site", sn, []c11Blk{{keys[0], []string{"import shared"}}, {keys[1], []string{l}}, {keys[2], []string{"import shared"}}})
+		}
+	}
+	// files of two and three sites in general: every site a few lines of different directives, some through a snippet
+	nMixed := 150
+	if tier == "thorough" {
+		nMixed = 1500
+	}
+	for i := 0; i < nMixed; i++ {
+		line := func() string {
+			d := r.Pick(dirs)
+			if r.Chance(70) {
+				return accepted(d)
+			}
+			l := d
+			for k := r.Intn(3); k > 0; k-- {
+				l += " " + q(r.Pick(lex))
+			}
+			return l
+		}
+		sn := [][2]string{{"shared", line()}}
+		if r.Chance(40) {
+			sn[0][1] += "\n" + line()
+		}
+		nb := r.Range(2, 3)
+		var blks []c11Blk
+		for b := 0; b < nb; b++ {
+			var ls []string
+			for k := r.Range(1, 3); k > 0; k-- {
+				if r.Chance(35) {
+					ls = append(ls, "import shared")
+				} else {
+					ls = append(ls, line())
+				}
+			}
+			blks = append(blks, c11Blk{keys[b], ls})
+		}
+		add("mixed", fmt.Sprintf("mixed-%d-sites", nb), sn, blks)
+	}
+	return out
 }
 
 // ---- sequences: configurations loaded one after the other in ONE process.  A setup that is rejected must leave
@@ -1126,6 +1301,9 @@ func c11Gen(r *Rand, tier string) []interface{} {
 			}
 		}
 	}
+	for _, x := range c11GenMulti(r, tier, dirs, fixDir, func(d string) []string { return c11Vocab(c11Pkg[d]) }, lex, q) {
+		out = append(out, x)
+	}
 	// sequences in ONE process: a rejected configuration of every directive followed by accepted ones of the same
 	// directive and of others (two and three steps, every pair of modes)
 	seqs := c11GenSeqs(dirs, tier)
@@ -1167,7 +1345,7 @@ func c11Gen(r *Rand, tier string) []interface{} {
 func init() {
 	register(&Property{
 		ID: "C11", Imports: "V.Lib V.C11_Model V.C11_Cases", Judge: "judge", Shard: 300,
-		Rule: "(targeted search: for every obligation of this run that lia does not prove and that is not pinned, the directives holding the site get 13x the configurations with the enclosing function's own string literals and their boundary variants as arguments, and every argument composed from the function's own separator literals in every relative order - [prefix] atom sep atom [sep atom [sep atom]], e.g. scheme://host:port/path:with:colons, host/a:b, [::1]:80/x:y, unix:/p:q - as first / second argument and as argument of a sub-directive; cost cases: proxy upstream port ranges, each mode in a child process under 2 s / 256 MiB, killed at 6 s / 320 MiB live heap; blocks with 2-3 keys of different shapes carry the per-key outcomes and are held against the executeDirectives model) Dispenser: random token lists (incl. foreign files / non-monotone lines as spliced imports produce) x random operation sequences on the real casketfile.Dispenser vs the model; sequences: for every registered directive a rejected configuration (environment faults where the directive reads files - htpasswd missing / malformed after a good line / with a hash its parser rejects / lacking the user, certificate files that are not, missing templates and pages - bad values, an unknown sub-directive, surplus arguments) followed by accepted configurations of the same directive and of others, two and three steps, every pair of modes, ALL IN ONE child process with a watchdog per step; each step is held against the same configuration loaded alone in a fresh process (a hang, a crash or a different answer after a rejected setup is reported with the sequence); `root` (and, sampled, every directive) with arguments naming the Casketfile itself, its directory, parents, children and name-prefix siblings; configurations: for every registered directive, argument counts 0..4 over lexical classes and sub-blocks over the directive's own keyword vocabulary (harvested from its package's case labels), each run through ValidateAndExecuteDirectives in validate and in execute mode under recover + watchdog; non-trivial = >=2 tokens / accepted or mode-dependent configuration; distinct = distinct configuration text",
+		Rule: "(targeted search: for every obligation of this run that lia does not prove and that is not pinned, the directives holding the site get 13x the configurations with the enclosing function's own string literals and their boundary variants as arguments, and every argument composed from the function's own separator literals in every relative order - [prefix] atom sep atom [sep atom [sep atom]], e.g. scheme://host:port/path:with:colons, host/a:b, [::1]:80/x:y, unix:/p:q - as first / second argument and as argument of a sub-directive; cost cases: proxy upstream port ranges, each mode in a child process under 2 s / 256 MiB, killed at 6 s / 320 MiB live heap; blocks with 2-3 keys of different shapes carry the per-key outcomes and are held against the executeDirectives model) whole files: for every registered directive a few lines, each in effect twice or more within ONE load - twice in one block, in two / three blocks, in a block with two keys, through a snippet imported by two sites / twice by one site / next to the site's own copy - and files of 2-3 sites mixing directives, own lines and shared snippets, both modes; files of several sites carry the class of each site loaded alone and are held against the executeDirectives model; a panic is re-examined in a fresh child process; Dispenser: random token lists (incl. foreign files / non-monotone lines as spliced imports produce) x random operation sequences on the real casketfile.Dispenser vs the model; sequences: for every registered directive a rejected configuration (environment faults where the directive reads files - htpasswd missing / malformed after a good line / with a hash its parser rejects / lacking the user, certificate files that are not, missing templates and pages - bad values, an unknown sub-directive, surplus arguments) followed by accepted configurations of the same directive and of others, two and three steps, every pair of modes, ALL IN ONE child process with a watchdog per step; each step is held against the same configuration loaded alone in a fresh process (a hang, a crash or a different answer after a rejected setup is reported with the sequence); `root` (and, sampled, every directive) with arguments naming the Casketfile itself, its directory, parents, children and name-prefix siblings; configurations: for every registered directive, argument counts 0..4 over lexical classes and sub-blocks over the directive's own keyword vocabulary (harvested from its package's case labels), each run through ValidateAndExecuteDirectives in validate and in execute mode under recover + watchdog; non-trivial = >=2 tokens / accepted or mode-dependent configuration; distinct = distinct configuration text",
 		Gen:    c11Gen,
 		Decode: func(raw json.RawMessage) (interface{}, error) { in := &c11In{}; return in, json.Unmarshal(raw, in) },
 		Run:    c11Run,
